@@ -51,6 +51,16 @@ func TestC18Copy(t *testing.T) {
 		}
 
 		wrappedSrc := rapid.Bool().Draw(t, "wrapped")
+
+		// A hand-made soft type often leaves FromType out of its
+		// relationships (AddRel does not ask for it); a copy has it the way
+		// the source has it.
+		if !wrappedSrc && rapid.IntRange(0, 2).Draw(t, "blankFromType") == 0 {
+			for i := range ts.Rels {
+				ts.Rels[i].FromType = ""
+			}
+		}
+
 		soft, wrapped := twins(&ts, vals)
 
 		src := soft
@@ -204,6 +214,7 @@ func TestC18Copy(t *testing.T) {
 
 			op := rapid.SampledFrom(ops).Draw(t, "op")
 			what := op + " on the " + xname
+			ownChange := ""
 
 			if x == src && strings.HasPrefix(op, "type-") || x == src && strings.HasSuffix(op, "-map-delete") {
 				srcTypeScribbled = true
@@ -312,13 +323,25 @@ func TestC18Copy(t *testing.T) {
 				case "add-rel":
 					x.(*jsonapi.SoftResource).AddRel(jsonapi.Rel{FromType: "t", FromName: fmt.Sprintf("newrel%d", i), ToType: "t"})
 				case "remove-field":
-					x.(*jsonapi.SoftResource).RemoveField(rapid.SampledFrom(ts.Fields()).Draw(t, "victim"))
+					// (the mutated side keeps all its other values)
+					victim := rapid.SampledFrom(ts.Fields()).Draw(t, "victim")
+					own := fieldValues(x)
+					x.(*jsonapi.SoftResource).RemoveField(victim)
+					delete(own, victim)
+
+					if now := fieldValues(x); !reflect.DeepEqual(own, now) {
+						ownChange = fmt.Sprintf("RemoveField(%q) on the %s: its fields read %v before (without %q) and %v after", victim, xname, own, victim, now)
+					}
 				}
 			}); p != nil {
 				t.Fatalf("C18 violated: %s %s\ncase: %s\nhistory: %s", what, p, desc, strings.Join(history, "; "))
 			}
 
 			history = append(history, what)
+
+			if ownChange != "" {
+				t.Fatalf("C18 violated: %s\ncase: %s\nhistory: %s", ownChange, desc, strings.Join(history, "; "))
+			}
 
 			var after string
 			if p := oracle.Try(func() { after = oracle.SnapshotResource(y, false) }); p != nil {
@@ -382,6 +405,21 @@ func TestC18Copy(t *testing.T) {
 
 		r.Case(desc+" history: "+strings.Join(history, "; "), hasShapes && inPlace > 0 && !useNew, labels...)
 	}))
+}
+
+// fieldValues reads every field the resource exposes.
+func fieldValues(res jsonapi.Resource) map[string]string {
+	out := map[string]string{}
+
+	for n := range res.Attrs() {
+		out[n] = gen.Show(res.Get(n))
+	}
+
+	for n := range res.Rels() {
+		out[n] = gen.Show(res.Get(n))
+	}
+
+	return out
 }
 
 // typeContent renders a type's name and field definitions (nothing else).
